@@ -285,14 +285,18 @@ func ctxChecker(next fox.HandlerFunc) fox.HandlerFunc {
 	}
 }
 
-var ctxNoQueryBad string
+type ctxNoQKey struct{}
 
 // ctxNoQueryHandler serves a request that has no query string, twice asks for its (empty) query values, and then writes
-// into the returned map as handlers do to pass defaults on; the next such request must start empty again
+// into the returned map as handlers do to pass defaults on; the next such request must start empty again. The complaint
+// goes into the string the request carries in its context (requests of this kind run concurrently in the conc cases).
 func ctxNoQueryHandler(c fox.Context) {
+	bad, _ := c.Request().Context().Value(ctxNoQKey{}).(*string)
 	for i := 0; i < 2; i++ {
 		if q := c.QueryParams(); len(q) != 0 || c.QueryParam("page") != "" || c.QueryParam("q") != "" {
-			ctxNoQueryBad = fmt.Sprintf("a request without query string sees query values %v", q)
+			if bad != nil {
+				*bad = fmt.Sprintf("a request without query string sees query values %v", q)
+			}
 		}
 	}
 	c.QueryParams().Set("page", c.Param("id"))
@@ -489,10 +493,11 @@ func (run *ctxRun) op(op byte, k int) string {
 	run.r.ServeHTTP(w, req)
 	if k%3 == 0 {
 		// an auxiliary request without query string (no probe attached: the checker middleware lets it pass)
-		ctxNoQueryBad = ""
-		run.r.ServeHTTP(newRecWriter(), newReq("GET", "example.com", "/noq/"+tok))
-		if ctxNoQueryBad != "" {
-			p.fail("%s", ctxNoQueryBad)
+		noqBad := ""
+		nq := newReq("GET", "example.com", "/noq/"+tok)
+		run.r.ServeHTTP(newRecWriter(), nq.WithContext(context.WithValue(nq.Context(), ctxNoQKey{}, &noqBad)))
+		if noqBad != "" {
+			p.fail("%s", noqBad)
 		}
 	}
 	if p.handlers != 1 {
